@@ -16,9 +16,13 @@ CLAIMED = {
 def load_claims():
     """props/<ID>.claim.json files (same keys as the CLAIMED entries) add or override claims."""
     import glob
+    # only claims the coordinator has reviewed and run (props/approved.txt: one property id per line)
+    ap = os.path.join(VERIF, "props", "approved.txt")
+    approved = set(open(ap).read().split()) if os.path.exists(ap) else set()
     for p in sorted(glob.glob(os.path.join(VERIF, "props", "C*.claim.json"))):
         pid = os.path.basename(p).split(".")[0]
-        CLAIMED[pid] = json.load(open(p))
+        if pid in approved:
+            CLAIMED[pid] = json.load(open(p))
 
 
 NOT_YET = "not claimed yet: the model/theorems/correspondence for this property are still being built (see DESIGN.md section 10 for the order); no check is registered rather than an unsound one"
